@@ -253,6 +253,28 @@ func (e *Enc) encodeCall(instr ssa.CallInstruction, v *ssa.Call, st *State) {
 	s := e.sorts()
 	ct := e.resolveCall(common)
 	sig := ct.sig
+	if mc, ok := common.Value.(*ssa.MakeClosure); ok && ct.contract == nil {
+		if fn, ok := mc.Fn.(*ssa.Function); ok && e.canInline(fn) {
+			if res, ok := e.inlineClosure(fn, common.Args, mc.Bindings, st); ok {
+				if v != nil {
+					switch len(res) {
+					case 0:
+					case 1:
+						e.setVal(v, s.SortOf(v.Type()), res[0])
+					default:
+						var ts []string
+						for i, r := range res {
+							ts = append(ts, e.define(fmt.Sprintf("v$%s$%d", v.Name(), i), s.SortOf(v.Type().(*types.Tuple).At(i).Type()), r))
+						}
+						e.tuples[v] = ts
+					}
+				}
+				return
+			}
+		}
+	}
+	e.curClosureResolve = e.closureResolver(common.Value)
+	defer func() { e.curClosureResolve = nil }()
 	label := "call"
 	if v != nil {
 		label = "c$" + v.Name()
@@ -305,7 +327,14 @@ func (e *Enc) encodeCall(instr ssa.CallInstruction, v *ssa.Call, st *State) {
 				if len(parts) > 1 {
 					name = fmt.Sprintf("%s.%d", lab, pi+1)
 				}
-				e.oblig("pre", fmt.Sprintf("pre[%s]@call#%d(%s)", name, ord, shortKey(ct.key)), goal, pe.String()+"   [precondition of "+ct.key+" at "+posOf(e.fn, instr.Pos())+"]", nil)
+				po := e.oblig("pre", fmt.Sprintf("pre[%s]@call#%d(%s)", name, ord, shortKey(ct.key)), goal, pe.String()+"   [precondition of "+ct.key+" at "+posOf(e.fn, instr.Pos())+"]", nil)
+				// a property tag on the callee's requires clause makes the call-site obligation count for that property too
+				for t := range cl.Tags {
+					if !strings.HasPrefix(t, "pkg:") && !hasProp(po.Props, t) {
+						po.Props = append(po.Props, t)
+					}
+				}
+				sort.Strings(po.Props)
 				e.fact(goal)
 			}
 		}
@@ -370,7 +399,40 @@ func (e *Enc) encodeCall(instr ssa.CallInstruction, v *ssa.Call, st *State) {
 
 func (e *Enc) calleeCtx(cc *FuncContract, st, old *State, vars map[string]TV, where string) *EvalCtx {
 	pkg := e.ctx.pkgByPath(cc.Pkg)
-	return &EvalCtx{enc: e, pkg: pkg, pkgPath: cc.Pkg, st: st, old: old, vars: vars, resolve: nil, where: where}
+	return &EvalCtx{enc: e, pkg: pkg, pkgPath: cc.Pkg, st: st, old: old, vars: vars, resolve: e.curClosureResolve, where: where}
+}
+
+// closureResolver: the callee is a closure made in this function; the names of its captured
+// variables in its contract denote the captured cells, read in the state of evaluation.
+func (e *Enc) closureResolver(v ssa.Value) func(string, *State) (TV, bool) {
+	for {
+		if ct, ok := v.(*ssa.ChangeType); ok {
+			v = ct.X
+			continue
+		}
+		break
+	}
+	mc, ok := v.(*ssa.MakeClosure)
+	if !ok {
+		return nil
+	}
+	fn, ok := mc.Fn.(*ssa.Function)
+	if !ok {
+		return nil
+	}
+	return func(name string, st *State) (TV, bool) {
+		for i, fv := range fn.FreeVars {
+			if fv.Name() != name || i >= len(mc.Bindings) {
+				continue
+			}
+			pl := e.placeOf(mc.Bindings[i])
+			if pl == nil {
+				return TV{}, false
+			}
+			return TV{Term: e.loadPlace(pl, st), Sort: e.sorts().SortOf(pl.T), T: pl.T}, true
+		}
+		return TV{}, false
+	}
 }
 
 func (e *Enc) applyDeferred(d *ssa.Defer, st *State, dominates bool) {
@@ -385,11 +447,20 @@ func (e *Enc) applyDeferred(d *ssa.Defer, st *State, dominates bool) {
 		e.assumed["deferred recover() handler "+ct.key+" has no effect on normal returns"] = true
 		return
 	}
+	if mc, ok := common.Value.(*ssa.MakeClosure); ok && dominates && ct.contract == nil {
+		if fn, ok := mc.Fn.(*ssa.Function); ok && e.canInline(fn) {
+			if _, ok := e.inlineClosure(fn, common.Args, mc.Bindings, st); ok {
+				return
+			}
+		}
+	}
 	e.lastPreAlloc = st.get(allocHeap)
 	oldSt := st.clone()
 	if ct.contract == nil || !ct.contract.Pure {
 		e.havocMods(st, e.ctx.callMods(e, common, ct), "defer")
 	}
+	e.curClosureResolve = e.closureResolver(common.Value)
+	defer func() { e.curClosureResolve = nil }()
 	if ct.contract != nil && dominates {
 		s := e.sorts()
 		vars := map[string]TV{}
@@ -677,7 +748,16 @@ func (e *Enc) encodeSortCall(common *ssa.CallCommon, st *State) bool {
 	if sc == nil || sc.Pkg == nil || sc.Pkg.Pkg.Path() != "sort" || (sc.Name() != "Sort" && sc.Name() != "Stable") || len(common.Args) != 1 {
 		return false
 	}
-	mi, ok := common.Args[0].(*ssa.MakeInterface)
+	// sort.Sort(sort.Reverse(x)): the same model with the comparison reversed
+	reversed := false
+	arg0 := common.Args[0]
+	if rc, ok := arg0.(*ssa.Call); ok {
+		if rf := rc.Call.StaticCallee(); rf != nil && rf.Pkg != nil && rf.Pkg.Pkg.Path() == "sort" && rf.Name() == "Reverse" && len(rc.Call.Args) == 1 {
+			arg0 = rc.Call.Args[0]
+			reversed = true
+		}
+	}
+	mi, ok := arg0.(*ssa.MakeInterface)
 	if !ok {
 		return false
 	}
@@ -696,9 +776,12 @@ func (e *Enc) encodeSortCall(common *ssa.CallCommon, st *State) bool {
 	}
 	s := e.sorts()
 	h := s.ElemHeap(sl.Elem())
-	x := e.term(mi.X)
 	old := st.get(h)
 	id := fmt.Sprint(e.count("sortcall"))
+	// the sorted slice gets a name of its own: its defining term may contain `ite` (an append
+	// result), which solvers reject inside patterns
+	x := e.declare("sort$"+id+"$arg", "Slice")
+	e.fact("(= " + x + " " + e.term(mi.X) + ")")
 	nh := e.declare("sort$"+id+"$"+h.Name, h.Sort)
 	st.set(h, nh)
 	perm, inv := q("sort$"+id+"$perm"), q("sort$"+id+"$inv")
@@ -730,10 +813,14 @@ func (e *Enc) encodeSortCall(common *ssa.CallCommon, st *State) bool {
 	lessFn := e.ctx.funcByKey[lessKey]
 	if lessExpr != nil && lessFn != nil && len(lessFn.Params) == 3 {
 		qa, qb := "qa!"+id, "qb!"+id
+		first, second := qb, qa // sorted: for a < b, !Less(b, a)
+		if reversed {
+			first, second = qa, qb // reverse-sorted: for a < b, !Less(a, b)
+		}
 		vars := map[string]TV{
 			lessFn.Params[0].Name(): {Term: x, Sort: "Slice", T: mi.X.Type()},
-			lessFn.Params[1].Name(): {Term: qb, Sort: "Int", T: types.Typ[types.Int]},
-			lessFn.Params[2].Name(): {Term: qa, Sort: "Int", T: types.Typ[types.Int]},
+			lessFn.Params[1].Name(): {Term: first, Sort: "Int", T: types.Typ[types.Int]},
+			lessFn.Params[2].Name(): {Term: second, Sort: "Int", T: types.Typ[types.Int]},
 		}
 		c := e.calleeCtx(lc, st, nil, vars, "sorted-by "+lessKey)
 		body := c.boolTerm(lessExpr)
